@@ -1,9 +1,5 @@
 //@include ghost_ac_nfa.rs
-spec fn sem_ovl<V>(n: NfaBuilder<u8, V>, hay: Seq<u8>, k: nat) -> Seq<Match<V>>
-    decreases hay.len() - k
-{
-    if k >= hay.len() { Seq::empty() } else { suf_matches(n, hay.take(k as int + 1), 0, k + 1) + sem_ovl(n, hay, k + 1) }
-}
+//@include ghost_sem_bw.rs
 
 // the overlapping scan over the sparse NFA
 spec fn nfa_scan<V>(n: NfaBuilder<u8, V>, s: int, rest: Seq<u8>, k: nat) -> Seq<Match<V>>
@@ -93,12 +89,6 @@ proof fn theorem_c01_bw<V>(n: NfaBuilder<u8, V>, st: Seq<State>, idmap: Seq<u32>
 
 //@include ghost_nfa_outs.rs
 // ---- C05: the no-suffix search reports, at every end position where some pattern ends, exactly the longest one ----
-spec fn first_of<V>(s: Seq<Match<V>>) -> Seq<Match<V>> { if s.len() == 0 { Seq::empty() } else { seq![s[0]] } }
-spec fn sem_nosuf<V>(n: NfaBuilder<u8, V>, hay: Seq<u8>, k: nat) -> Seq<Match<V>>
-    decreases hay.len() - k
-{
-    if k >= hay.len() { Seq::empty() } else { first_of(suf_matches(n, hay.take(k as int + 1), 0, k + 1)) + sem_nosuf(n, hay, k + 1) }
-}
 // output positions are valid list heads (part of the assumed contract of build_outputs, nfa_outs_ok)
 proof fn lemma_chain_head<V>(outs: Seq<Output<V>>, o: nat, end: nat)
     requires o <= outs.len(), forall|j: int| 0 <= j < outs.len() ==> out_parent(#[trigger] outs[j]) <= j,
@@ -164,30 +154,7 @@ proof fn theorem_c05_bw<V>(n: NfaBuilder<u8, V>, st: Seq<State>, idmap: Seq<u32>
 // ---- C02: the non-overlapping search reports the occurrence (inside the unread text) that ends first, the longest one
 // if several end there, and resumes after it ----
 // first j >= from such that some registered pattern is a suffix of rest[..j]
-spec fn sem_first<V>(n: NfaBuilder<u8, V>, rest: Seq<u8>, from: nat) -> Option<nat>
-    decreases rest.len() + 1 - from
-{
-    if from > rest.len() { None }
-    else if from > 0 && suf_matches(n, rest.take(from as int), 0, from).len() > 0 { Some(from) }
-    else { sem_first(n, rest, from + 1) }
-}
-spec fn sem_find<V>(n: NfaBuilder<u8, V>, rest: Seq<u8>, k: nat) -> Seq<Match<V>>
-    decreases rest.len()
-{
-    match sem_first(n, rest, 1) {
-        None => Seq::empty(),
-        Some(j) => if j == 0 || j > rest.len() { Seq::empty() } else {
-            seq![suf_matches(n, rest.take(j as int), 0, k + j)[0]] + sem_find(n, rest.skip(j as int), k + j)
-        },
-    }
-}
 // the number of matches at a position does not depend on the end offset stamped on them
-proof fn lemma_suf_len<V>(n: NfaBuilder<u8, V>, p: Seq<u8>, i: nat, e1: nat, e2: nat)
-    ensures suf_matches(n, p, i, e1).len() == suf_matches(n, p, i, e2).len(),
-    decreases p.len() - i,
-{
-    if i < p.len() { lemma_suf_len(n, p, i + 1, e1, e2); }
-}
 // first reporting position of the scan over the NFA (same shape as find_first over the array)
 spec fn nfa_find_first<V>(n: NfaBuilder<u8, V>, s: int, rest: Seq<u8>, cnt: nat) -> Option<(nat, int)>
     decreases rest.len()
